@@ -236,7 +236,49 @@ def e4(run: Run, prog: Program):
     run.floor("E4 statements analysed", n, 40)
 
 
+NARROW_INT = ("int8", "int16", "uint8", "uint16", "i1", "i2", "u1", "u2")
+POSITION_SOURCES = ("where", "nonzero", "flatnonzero", "argwhere", "arange")
+
+
+def e5(run: Run, prog: Program):
+    """Event positions (indices produced by np.where / nonzero ...) are not cast
+    to an integer type narrower than 32 bits: positions beyond the type's range
+    wrap around and the inter-event distances become meaningless."""
+    es = prog.classes.get("EventSeries")
+    n = 0
+    for f in sorted(es.methods.values(), key=lambda f: f.name):
+        for c in ast.walk(f.node):
+            if not isinstance(c, ast.Call):
+                continue
+            src = None
+            dt = None
+            if ast.unparse(c.func) in ("np.array", "np.asarray", "numpy.array") and c.args:
+                src = c.args[0]
+                dt = next((k.value for k in c.keywords if k.arg == "dtype"), None)
+            elif isinstance(c.func, ast.Attribute) and c.func.attr == "astype" and c.args:
+                src, dt = c.func.value, c.args[0]
+            if src is None or dt is None:
+                continue
+            if not any(isinstance(x, ast.Call) and isinstance(x.func, ast.Attribute)
+                       and x.func.attr in POSITION_SOURCES for x in ast.walk(src)):
+                continue
+            n += 1
+            d = dt.value if isinstance(dt, ast.Constant) else ast.unparse(dt).split(".")[-1]
+            ok = str(d) not in NARROW_INT
+            run.oblige("E5", f"{f.qualname}@{ast.unparse(c)[:50]}", ok, sample={
+                "where": f"{f.module.relpath}:{c.lineno}", "dtype": str(d)})
+            if not ok:
+                run.add("E5", f"{f.qualname}/narrow-positions/{d}",
+                        f"{f.module.relpath}:{c.lineno}",
+                        f"{f.qualname} stores event positions as {d} "
+                        f"(`{ast.unparse(c)[:70]}`): positions beyond the range of {d} "
+                        f"wrap around, so for long series the events are compared at "
+                        f"the wrong times")
+    run.count("E5", n)
+
+
 def check(run: Run, prog: Program):
+    run.rule("E5", "event positions are not narrowed below 32-bit integers")
     run.rule("E4", "the pairwise ES/ECA kernels are exchange consistent: swapping the "
              "roles of the two sequences maps every statement onto a statement of the "
              "same branch and the first returned direction onto the second")
@@ -255,6 +297,7 @@ def check(run: Run, prog: Program):
     e1(run, prog)
     e2(run, prog)
     e4(run, prog)
+    e5(run, prog)
     from .rules_c06 import p1_restricted
     p1_restricted(run, "E3", prog, lambda o: o.startswith("cached:EventSeries."),
                   "memoised event-synchronisation matrix", floor=1)
